@@ -103,7 +103,31 @@ def run_cases(seed, lo, hi, extra):
         for sig, det in probs[:1]:
             st.failures.append({"prop": "C08", "sig": f"{sig}/{cs}", "detail": det, "output": out[:600], **desc})
         if probs:
-            continue
+            # the accept / reject oracles still apply to an output that parses
+            try:
+                etree.fromstring(out.encode("utf-8"))
+            except Exception:  # noqa
+                continue
+        if mode != "textpairs" and idx % 5 == 1:
+            # C08 is about every pair of trees the formatter can be given: two elements inside larger documents, followed
+            # by different white space (their tails differ), must give well-formed markup too
+            from xmldiff import main as _main2, formatting as _formatting2
+            st.units["trees-inside-larger-documents"] = st.units.get("trees-inside-larger-documents", 0) + 1
+            hl_, hr_ = etree.Element("holder"), etree.Element("holder")
+            el_, er_ = xt.to_lxml(L), xt.to_lxml(R)
+            hl_.append(el_)
+            hr_.append(er_)
+            el_.tail, er_.tail = "\n  ", "\n"
+            hl_.append(etree.Element("after"))
+            try:
+                oe_ = _main2.diff_trees(el_, er_, diff_options=opts, formatter=_formatting2.XMLFormatter(**cfg))
+                try:
+                    etree.fromstring(oe_.encode("utf-8"))
+                except Exception as e:  # noqa
+                    st.failures.append({"prop": "C08", "sig": f"C08/output-not-well-formed/{cs}/trees-inside-larger-documents", "detail": str(e)[:200], "output": oe_[:600], **desc})
+            except Exception as e:  # noqa
+                if not probs:
+                    st.failures.append({"prop": "C08", "sig": f"C08/raises/{real.exc_sig(e)}/{cs}/trees-inside-larger-documents", **desc})
         if mode != "textpairs" and idx % 3 == 0 and not cfg.get("use_replace"):
             # C08 quantifies over formatter configurations, not over fresh objects: the same formatter used for a
             # second diff (which meets the placeholder keys of the first one again) must still return clean markup
